@@ -200,5 +200,5 @@ def run(ctx: core.Ctx) -> None:
     if len(cases) != EXPECTED_CASES[3]:
         raise tlc.MachineryError(f"expected {EXPECTED_CASES[3]} exported cases, got {len(cases)}")
     cases.sort(key=lambda c: (c["fn"], c["dtype"], c["layout"], c["n"], c["sides"]))
-    replay_cases(ctx, cases, n_inst=6 if ctx.quick else 64)
-    shuffled_stage(ctx, cases, n_inst=6 if ctx.quick else 64)
+    replay_cases(ctx, cases, n_inst=6 if ctx.quick else 256)
+    shuffled_stage(ctx, cases, n_inst=6 if ctx.quick else 256)
